@@ -140,7 +140,7 @@ fn promise_case<P: G>(cfg: Cfg, j: usize, tier: Tier, top: bool) -> Box<dyn Case
                     }
                     cw.promises[0] = comp_promise;
                     let comp = build_cached::<P>(&comp_cfg, &cw).honest();
-                    let comp_proof = lib_prove(&comp, &CTX_A, &mut HRng::chacha(43)).honest();
+                    let comp_proof = lib_prove_honest(&comp, &CTX_A, &mut HRng::chacha(43));
                     // precondition (C01 / C03): the same two triples verify together when neither carries a promise-specific
                     // feature, i.e. the companion alone and the triple alone are accepted
                     let comp_ok = verify_observed_one(&comp.statement, &comp_proof, &CTX_A, VerifyAction::VerifyOnly).is_ok();
